@@ -69,12 +69,12 @@ theorem C12_dry_body_no_onError (H : Hashes) (pr : Proj) (i : Nat) (t : Task) (e
 
 /-- **a failing call under `--dry`** (TS4): the invocation exits `failed` — and changes nothing. -/
 theorem C12_dry_failing_call (H : Hashes) (pr : Proj) {i : Nat} {t : Task} (ht : pr.tasks[i]? = some t)
-    (e : Env) (s : State) (hno : (isUpToDate H pr t true e.now s).2 = false)
+    (e : Env) (s : State) (hce : checkErr t e s.files = false) (hno : (isUpToDate H pr t true e.now s).2 = false)
     (hb : t.cmds.any (fun c => c.blocked s.files) = true) :
     (invoke Cfg.fixed H pr i .dry e s).1 = s ∧ (invoke Cfg.fixed H pr i .dry e s).2.exit = .failed ∧
     (invoke Cfg.fixed H pr i .dry e s).2.ran = [] := by
   refine ⟨(C12_full_fixed H pr i .dry e s rfl).1, ?_, (C12_full_fixed H pr i .dry e s rfl).2⟩
-  simp only [invoke, ht, hno, Bool.false_eq_true, if_false, isUpToDate_dry]
+  simp only [invoke, ht, hce, hno, Bool.false_eq_true, if_false, isUpToDate_dry]
   rw [runBody_dry_exit Cfg.fixed H pr rfl rfl i t e s, if_pos hb]
 
 /-- `checker.OnError` is unreachable in dry mode WHATEVER the call site of `statusOnError` (TS4): its
@@ -102,12 +102,12 @@ theorem wiring_is_fixed : cfgOfTables = Cfg.fixed := by
 
 private def tX : Task :=
   { name := [120], label := [], method := .checksum, sources := [⟨false, [0]⟩], generates := [],
-    status := [], prompt := false, dir := none, cmds := [⟨[], none⟩] }
+    status := [], prompt := false, dir := none, cmds := [⟨[], none, false⟩] }
 private def tD : Task := { tX with dir := some 0, sources := [] }
 private def prX : Proj := { base := [(0, [97])], dirOf := [], dirLen := [], tasks := [tX] }
 private def prD : Proj := { base := [], dirOf := [], dirLen := [(0, 2)], tasks := [tD] }
 private def s1 : State := { State.empty with files := [(0, ⟨[1], 5⟩)] }
-private def env (n : Nat) : Env := ⟨n, false, none, none⟩
+private def env (n : Nat) : Env := ⟨n, false, none, none, false, true, false⟩
 
 /-- defect 6 (F7): `--list --json` with non-dry checkers writes a checksum, and the next
 normal run skips a task that never ran. -/
@@ -121,11 +121,11 @@ theorem C12_found_dry_mkdir_counterexample :
     (invoke Cfg.found hId prD 0 .dry (env 10) State.empty).1 ≠ State.empty := by decide
 
 /- a task with a stored checksum whose second command is a `task:` call with precondition `test -f 1` -/
-private def tC : Task := { tX with cmds := [⟨[], none⟩, ⟨[], some 1⟩] }
+private def tC : Task := { tX with cmds := [⟨[], none, false⟩, ⟨[], some 1, false⟩] }
 private def prC : Proj := { prX with base := [(0, [97]), (1, [98])], tasks := [tC] }
 private def sC : State :=   -- after a successful run with file 1 present: file 1 removed, source edited
   applyOp prC (.write 0 [2] 7) (applyOp prC (.delete 1)
-    (invoke Cfg.fixed hId prC 0 .run ⟨10, true, none, none⟩ { State.empty with files := [(0, ⟨[1], 5⟩), (1, ⟨[], 5⟩)] }).1)
+    (invoke Cfg.fixed hId prC 0 .run ⟨10, true, none, none, false, true, false⟩ { State.empty with files := [(0, ⟨[1], 5⟩), (1, ⟨[], 5⟩)] }).1)
 
 /-- (TS4) the rule before the fix, in isolation (`dryOnError := true`, the other two as repaired): the
 task ran once (checksum stored), the precondition's file is removed and a source edited; `--dry`
@@ -153,14 +153,14 @@ example : (invoke Cfg.fixed hId prX 0 .listJson (env 10) s1).1 = s1 ∧
 private def tT : Task := { tX with method := .timestamp }
 private def prT : Proj := { prX with tasks := [tT] }
 private def s3 : State := { s1 with marks := [(tsKey tT, 3)] }
-private def envF (n : Nat) : Env := ⟨n, true, some 0, none⟩
+private def envF (n : Nat) : Env := ⟨n, true, some 0, none, false, true, false⟩
 
 /-- non-vacuity for the marker: a normal run CREATES it (no marker), TOUCHES it (stale marker) and —
 when the command fails — REMOVES it; `--dry` (also with the failing command), `--status`,
 `--list --json`, `--list`, `--summary` leave it exactly as it was -/
 example :
     (invoke Cfg.fixed hId prT 0 .run (env 10) s1).1.marks = [(tsKey tT, 10)] ∧
-    (invoke Cfg.fixed hId prT 0 .run ⟨10, true, none, none⟩ s3).1.marks = [(tsKey tT, 10)] ∧
+    (invoke Cfg.fixed hId prT 0 .run ⟨10, true, none, none, false, true, false⟩ s3).1.marks = [(tsKey tT, 10)] ∧
     (invoke Cfg.fixed hId prT 0 .run (envF 10) s3).1.marks = [] ∧
     (invoke Cfg.fixed hId prT 0 .dry (env 10) s1).1 = s1 ∧
     (invoke Cfg.fixed hId prT 0 .dry (envF 10) s3).1 = s3 ∧ (invoke Cfg.fixed hId prT 0 .dry (envF 10) s3).2.ran = [] ∧
